@@ -398,7 +398,13 @@ func c13Convert(b0 []byte) (out V, tree []c13UF) {
 		}()
 		copy(b, b0)
 	}
+	if len(b) > 0 && &b[0] == &b0[0] {
+		b = append([]byte(nil), b0...)
+	}
 	fs, err := unknownfields.ConvertUnknownFields(b)
+	for i := range b { // the tree outlives the buffer it was converted from
+		b[i] = 0xEE
+	}
 	if err != nil {
 		return c13Err, nil
 	}
